@@ -505,7 +505,9 @@ CONTRACTS = [
       locals={"neigh": "Set[Int]"},
       requires={"wf": "wf(self)"},
       raises={"ValueError": "node not in V(self) or (order is not None and size is not None)"},
-      ensures={"result": "all((m in result) == (m != node and any(k in E(self) and node in k and m in k and sel(self, k, order, size, False) for k in Tuple)) for m in Node)"},
+      ensures={"result": "all((m in result) == (m != node and any(k in E(self) and node in k and m in k and sel(self, k, order, size, False) for k in Tuple)) for m in Node)",
+               # the same fact keyed by the hyperedge (a consequence of `result`, stated for E-matching in callers)
+               "covers": "all(implies(k in E(self) and node in k and m in k and m != node and sel(self, k, order, size, False), m in result) for k in Tuple for m in Node)"},
       invariants={0: {"neigh": "all((m in neigh) == any(count(_done0, k) >= 1 and m in k for k in Tuple) for m in Node)"},
                   1: {"neigh": "all((m in neigh) == any(count(_done1, k) >= 1 and m in k for k in Tuple) for m in Node)"}},
       properties=["C01", "C08"]),
